@@ -514,8 +514,21 @@ impl<'a, 'tcx> BodyCx<'a, 'tcx> {
                 v.push(("n", J::Num(xs.len() as i128)));
                 let all_lit = xs.iter().all(|x| matches!(x.kind, Lit(_)));
                 if xs.len() > 64 && all_lit {
-                    // big constant tables (unicode tries) are read by the syn extractor instead
-                    v.push(("elided", J::Bool(true)));
+                    // big constant tables (unicode tries, name lists): values only
+                    let mut vals = Vec::with_capacity(xs.len());
+                    for x in xs.iter() {
+                        if let Lit(l) = &x.kind {
+                            match &l.node {
+                                rustc_ast::LitKind::Int(n, _) => vals.push(J::Num(n.get() as i128)),
+                                rustc_ast::LitKind::Str(sym, _) => vals.push(s(sym.as_str())),
+                                rustc_ast::LitKind::Byte(b) => vals.push(J::Num(*b as i128)),
+                                rustc_ast::LitKind::Char(c) => vals.push(s(c.to_string())),
+                                rustc_ast::LitKind::Bool(b) => vals.push(J::Bool(*b)),
+                                _ => vals.push(J::Null),
+                            }
+                        }
+                    }
+                    v.push(("lits", J::Arr(vals)));
                 } else {
                     v.push(("elems", J::Arr(xs.iter().map(|x| self.expr(x)).collect())));
                 }
